@@ -289,6 +289,24 @@ func (r *Raft) VerifSetupAppendEntries(id ServerID, nextIndex, lastIndex uint64)
 	return req, err
 }
 
+// VerifProcessAppendResponse does what replicateTo does with the answer to an AppendEntries it
+// sent to a peer (the branches after the transport call): a newer term ends the leadership
+// (handleStaleTerm), a success records what the follower stores (updateLastAppended ->
+// commitment.match). A refusal only moves nextIndex, which the caller controls anyway.
+func (r *Raft) VerifProcessAppendResponse(id ServerID, req *AppendEntriesRequest, resp *AppendEntriesResponse) {
+	s := r.leaderState.replState[id]
+	if s == nil {
+		return
+	}
+	if resp.Term > req.Term {
+		r.handleStaleTerm(s)
+		return
+	}
+	if resp.Success {
+		updateLastAppended(s, req)
+	}
+}
+
 // ---------------------------------------------------------------- pure functions
 
 // VerifNextConfiguration wraps nextConfiguration.
